@@ -103,10 +103,20 @@ def main(argv=None):
         print(f"HARNESS-ERROR property={pid} internal error")
         sys.exit(2)
     wall = time.time() - t0
-    if res.get("harness_errors"):
-        for h in res["harness_errors"][:10]:
+    herr = res.get("harness_errors") or []
+    # conformance mismatches (virtual loop / modelled endpoints vs the real ones) discredit the
+    # model; when the exploration itself has found reproducible violations these are reported
+    # (exit 1) and the mismatch is shown as a note - a change that breaks the property may well
+    # make the real loops disagree with each other too.  Any other harness error (a schedule
+    # that does not replay deterministically) means nothing is trusted: exit 2.
+    conf = [h for h in herr if "conformance" in h]
+    fatal = [h for h in herr if h not in conf]
+    if fatal or (conf and not res["violations"]):
+        for h in herr[:10]:
             print(f"HARNESS-ERROR property={pid} {h}")
         sys.exit(2)
+    for h in conf[:5]:
+        print(f"NOTE property={pid} (in addition to the violations below) {h[:300]}")
     known = load_known()
     new = []
     known_hit = {}
